@@ -542,12 +542,26 @@ def check(pid, argv=None):
     run.finish()
 
 
+def refs_part(run):
+    """C08's observation points include the C accessors of references (<T>_typeid, <T>_member, reads through a reference): the
+    executing C-API engine on reference-bearing objects, results validated by TLC (XoCapiTrace) against Nav/Decode on the same bytes"""
+    cwd = os.getcwd()
+    os.chdir(run.tmp)
+    report0, notes0 = run.report, dict(run.notes)
+    try:
+        _check(run, "C08")
+    finally:
+        os.chdir(cwd)
+        run.report = report0
+    run.notes = dict(notes0, capi_part={k: v for k, v in run.notes.items() if k not in notes0 or notes0[k] != v})
+
+
 def _check(run, pid):
     state = dict(decl_first=False)
     report0 = run.report
     run.report = lambda key, desc, obj=None: report0(key, desc, None if obj is None else dict(obj, decl_first=state["decl_first"]))
     conf = COUNTS[run.tier]
-    nworlds = conf["worlds"]
+    nworlds = conf["worlds"] if pid != "C08" else conf["worlds"] // 3
     if run.replay:
         rp = json.load(open(run.replay))["replay"]
         if "genmodel" in rp:
@@ -566,7 +580,7 @@ def _check(run, pid):
     # worlds in groups: one driver build per group keeps translation units small
     group = 12
     all_recs, keys_by_rec, df_by_rec = [], [], []
-    targets = {"C02": ["cpu_serial"], "C07": ["cpu_serial"], "C15": ["cpu_serial", "cpu_openmp", "opencl", "cuda"]}[pid]
+    targets = {"C02": ["cpu_serial"], "C07": ["cpu_serial"], "C08": ["cpu_serial"], "C15": ["cpu_serial", "cpu_openmp", "opencl", "cuda"]}[pid]
     sanitize = (pid == "C07")
     stats = collections.Counter()
     for g0 in range(0, nworlds, group):
@@ -575,6 +589,8 @@ def _check(run, pid):
         for i in idxs:
             with C.memory_guard():
                 ws, os_ = build_objects(seed * 100003 + i, 1, f"X{i}", aligned=sanitize, gindex=i)
+            if pid == "C08":        # C08 observes references through C as well (<T>_typeid / <T>_member, reads through a reference)
+                os_ = [(w_, k_) for w_, k_ in os_ if X.has_refs(w_.handles[k_]["tx"])]
             worlds += ws
             objs += os_
         classes = []
@@ -729,11 +745,12 @@ def _check(run, pid):
         for item in v.split(";"):
             i, clause = item.split("=", 1)
             d = desc[int(i) - 1]
-            mine = {"C02": not clause.startswith("set:"), "C07": clause.startswith("set:"), "C15": True}[pid]
+            mine = {"C02": not clause.startswith("set:"), "C07": clause.startswith("set:"), "C15": True,
+                    "C08": clause.startswith(("typeid:", "member:")) or (not clause.startswith("set:") and any("d" in st_ for st_ in d["path"]))}[pid]
             if not mine:
                 run.count("other_property:" + clause)
                 continue
-            key_ = f"{clause}:{path_class(w.handles[key]['tx'], d['path'])}" + (f":{tgt}" if pid == "C15" else "")
+            key_ = ("capi:" if pid == "C08" else "") + f"{clause}:{path_class(w.handles[key]['tx'], d['path'])}" + (f":{tgt}" if pid == "C15" else "")
             run.report(key_, f"{d['name']} idx={d['idx']} on an object of {X.key(w.handles[key]['tx'])[:200]} at offset {key[1]} ({tgt}): {clause}; call record {rec['q'][int(i) - 1]}",
                        dict(seed=run.seed if not run.replay else seed, world=w.index, name=d["name"], idx=d["idx"]))
     run.notes["calls_validated_by_kind"] = dict(kinds)
